@@ -133,6 +133,23 @@ func (c11) Expand(pj json.RawMessage) []json.RawMessage {
 			add(f)
 		}
 	}
+	// sampled double faults (seeded by the plan): two different system calls
+	if n := len(pr.trace); n >= 2 {
+		rng := simrt.NewRand(planHash(pj, "double-fault"))
+		for k := 0; k < 6; k++ {
+			a, b := pr.trace[rng.Intn(n)], pr.trace[rng.Intn(n)]
+			ma, mb := faultMenu[a.Op], faultMenu[b.Op]
+			if a.N == b.N || len(ma) == 0 || len(mb) == 0 {
+				continue
+			}
+			fa, fb := ma[rng.Intn(len(ma))], mb[rng.Intn(len(mb))]
+			fa.At, fb.At = a.N, b.N
+			q := p
+			q.Faults = []simunix.Fault{fa, fb}
+			bj, _ := json.Marshal(q)
+			out = append(out, bj)
+		}
+	}
 	return out
 }
 
